@@ -13,6 +13,7 @@ def build(ctx):
     for p in EMIT:
         ctx.task('contracts.emit:task_emit_pass', p)
     ctx.task('contracts.exprs:task_exprs')
+    ctx.task('contracts.reader:task_reader')
     ctx.assume('fault classes are the property own list; wrong operand count, invalid pack format, align 0 and unreadable files are outside it and only recorded')
     ctx.trust(common.TRUST_BOUNDED)
 
